@@ -304,3 +304,48 @@ func c11SubpathSegments(p *Prog) *RuleResult {
 	r.Anchor("a segment validation of subpath", n >= 1)
 	return r
 }
+
+// C11/R7 the matched subpath is substituted verbatim.
+//
+// Node computes a pattern target as `new URL(target.replace(/\*/g, subpath), packageURL)` and
+// decodes percent escapes of the whole result afterwards (fileURLToPath). esbuild mirrors that:
+// it replaces "*" in the target by the subpath and URL-unescapes the result in
+// esmHandlePostConditions. The substituted text must therefore be the subpath exactly as matched;
+// escaping or otherwise rewriting it first makes `pkg/feat/a%20b.js` resolve to a file literally
+// named `a%20b.js` where Node resolves `a b.js`.
+func c11SubpathVerbatim(p *Prog) *RuleResult {
+	r := NewRule("C11/R7 subpath-verbatim", "the text substituted for `*` in an exports/imports pattern target is the matched subpath itself, unmodified (percent escapes are decoded once, on the whole result, as Node does)")
+	fn := p.FindFunc("resolver.(resolverQuery).esmPackageTargetResolve")
+	if !r.Anchor("resolver.(resolverQuery).esmPackageTargetResolve", fn != nil) {
+		return r
+	}
+	var subpath *ssa.Parameter
+	for _, prm := range fn.Params {
+		if prm.Name() == "subpath" {
+			subpath = prm
+		}
+	}
+	if !r.Anchor("parameter subpath", subpath != nil) {
+		return r
+	}
+	n := 0
+	eachInstr(fn, func(b *ssa.BasicBlock, in ssa.Instruction) {
+		c, ok := in.(*ssa.Call)
+		if !ok || calleeFullName(c) != "strings.ReplaceAll" || len(c.Call.Args) != 3 {
+			return
+		}
+		if s, ok := constString(c.Call.Args[1]); !ok || s != "*" {
+			return
+		}
+		n++
+		r.Instances++
+		key := "esmPackageTargetResolve substitution for *"
+		if c.Call.Args[2] == ssa.Value(subpath) {
+			r.OK(key, true, "the subpath parameter itself")
+		} else {
+			r.Fail(key, p.Pos(c.Pos()), "the text substituted for `*` is "+ssaExpr(c.Call.Args[2], 0)+", not the matched subpath itself: the later URL-unescaping then no longer yields the file Node resolves (`pkg/feat/a%20b.js` → `a b.js`)")
+		}
+	})
+	r.Anchor("the `*` substitution in esmPackageTargetResolve", n >= 1)
+	return r
+}
